@@ -23,6 +23,11 @@
 // earlier group's hash paths next to unlabelled ones; each of them is also run 6 times unchanged (only Go's
 // map order differs) and as a deterministic corpus over all 20 pool predicates (the group order is a function
 // of the IRIs). Failures carry the generator shape in their detail and in the histogram (`violation-shape:`).
+//
+// tied.go adds the families aimed at the inner loops of Hash N-Degree Quads step 5.4 (`tied-children`,
+// `shared-groups`, `sparse-big`), the `long-lines` family, their deterministic corpus (with two pinned RDFC-1.0
+// documents) and the WriteTo oracle (serialized bytes = iterator lines, count, failing writers); they draw from
+// their own random stream after everything else, so the streams of the older families are unchanged.
 package canonlib
 
 import (
@@ -63,6 +68,7 @@ var (
 	nomodel  = flag.Bool("nomodel", false, "property oracle on the implementation only")
 	hints    = flag.String("hints", "", "file of protocol lines that disagreed; pushed through the oracle first")
 	repoFlag = flag.String("repo", "", "repository root (default $VERIF_REPO or /repo): location of the W3C test archive")
+	families = flag.String("families", "", "development aid: comma-separated subset of the inner-loop families (corpus,tied-children,shared-groups,sparse-big,long-lines) and `base` for everything else; empty = all")
 )
 
 // ---------------------------------------------------------------- hashes
@@ -544,7 +550,7 @@ func bytesOf(entry string) string {
 func (h *harness) checkDataset(kind, hashName string, d dataset, variants int) {
 	wire := d.wire()
 	nb := len(d.bnodes())
-	h.rep.Eval(kind+" "+hashName+" "+wire, nb >= 2)
+	h.rep.Eval(kind+" "+hashName+" "+wire, nb >= 2 || strings.Contains(kind, "long-lines"))
 	h.rep.Count("shape:" + kind)
 	h.rep.Count("hash:" + hashName)
 	h.rep.Count(fmt.Sprintf("bnodes:%02d", nb))
@@ -736,6 +742,7 @@ func (h *harness) shapeChecks(hashName string, d dataset, g goRes) {
 	if !vh.Isomorphic(back, d.quads) {
 		h.violation(op, "C03: canonical output parses to a dataset that is not isomorphic to the input")
 	}
+	h.writeToChecks(op, g)
 	// sorted, unique
 	it := g.c.NewIterator()
 	var prev []byte
@@ -1389,29 +1396,7 @@ func readNQ(path string) (dataset, error) {
 	if err != nil {
 		return dataset{}, err
 	}
-	f := blanknodes.NewStringFactory()
-	prov := f.(blanknodes.StringProviderProvider).GetStringProvider(blanknodes.NewInt64StringProvider("?anon%d"))
-	dec, err := nquads.NewDecoder(bytes.NewReader(b), nquads.DecoderConfig{}.SetBlankNodeStringFactory(f))
-	if err != nil {
-		return dataset{}, err
-	}
-	d := dataset{labels: map[rdf.BlankNodeIdentifier]string{}}
-	seen := map[string]bool{}
-	for dec.Next() {
-		q := dec.Quad()
-		for _, t := range []rdf.Term{q.Triple.Subject, q.Triple.Object, q.GraphName} {
-			if bn, ok := t.(rdf.BlankNode); ok {
-				d.labels[bn.Identifier] = prov.GetBlankNodeString(bn)
-			}
-		}
-		k := vh.QuadWire(q, d.label)
-		if seen[k] {
-			continue // a dataset is a set (the repository's own test de-duplicates through inmemory.Dataset)
-		}
-		seen[k] = true
-		d.quads = append(d.quads, q)
-	}
-	return d, dec.Err()
+	return parseNQ(b)
 }
 
 func (h *harness) vectors() {
@@ -1743,7 +1728,7 @@ func Main(prop string) {
 		*out = "/verif/evidence/." + prop + ".report.json"
 	}
 	seed := vh.SeedFromEnv()
-	rule := "structured blank-node graphs (cycles, cliques, stars, paths, disjoint copies, random sparse digraphs, joined shapes, multi-predicate rings, trees with edges asserted in several graphs, disconnected unions of chains/stars/cycles over one pool predicate, unions of fringed rings/prisms/cliques with separate edges/chains whose nodes tie on first-degree hashes across non-isomorphic components; decorated with self loops, blank/IRI graph names, literal/IRI tails, exotic ground quads; <= 12 blank nodes) x hash (sha256, sha384, 32-bit and 8-bit truncations to provoke collisions) x 8..72 iteration orders; W3C vectors; non-trivial = at least two blank nodes (datasets), every vector"
+	rule := "structured blank-node graphs (cycles, cliques, stars, paths, disjoint copies, random sparse digraphs, joined shapes, multi-predicate rings, trees with edges asserted in several graphs, disconnected unions of chains/stars/cycles over one pool predicate, unions of fringed rings/prisms/cliques with separate edges/chains whose nodes tie on first-degree hashes across non-isomorphic components; decorated with self loops, blank/IRI graph names, literal/IRI tails, exotic ground quads; <= 12 blank nodes; inner-loop families of Hash N-Degree Quads: tied-children (owner in 2..3 copies with 3..4 children tied at first degree and told apart at distance >= 2), shared-groups (owner with two related-hash groups whose members are linked pairwise, 14..18 blank nodes), sparse-big (connected single-predicate graphs of 11..26 blank nodes with degrees <= 3: more than ten temporary identifiers per issuer); long-lines (canonical lines around 4096/8192/65536 bytes among short ones, WriteTo bytes compared with the iterator and under failing writers)) x hash (sha256, sha384, 32-bit and 8-bit truncations to provoke collisions) x 8..72 iteration orders; W3C vectors; non-trivial = at least two blank nodes or (long-lines) a canonical line longer than 4096 bytes (datasets), every vector"
 	rep := vh.NewReport(prop, *tier, seed, rule)
 	rep.Cases = []vh.Case{} // never null in the JSON report
 	h := &harness{prop: prop, r: vh.NewRng(seed), rep: rep, drv: vh.Driver{Path: *driver}}
@@ -1754,6 +1739,7 @@ func Main(prop string) {
 	}
 	h.known = vh.KnownKeys(fs, prop)
 	optRng = vh.NewRng(seed ^ 0x6f707473)
+	wtRng = vh.NewRng(seed ^ 0x77726974)
 
 	finish := func() {
 		if !*nomodel {
@@ -1803,6 +1789,13 @@ func Main(prop string) {
 	if *tier == "thorough" {
 		n = 6000 * *scale
 		maxNodes = 12
+	}
+
+	base := famOn("base")
+	if !base { // development aid (-families): only the selected inner-loop families
+		h.innerLoopFamilies(seed, *tier == "thorough", *scale)
+		finish()
+		return
 	}
 
 	// option lists: effective configuration of Canonicalize(options...)
@@ -1929,6 +1922,7 @@ func Main(prop string) {
 		})
 		rep.Exhaustive = append(rep.Exhaustive, fmt.Sprintf("all %d blank-node-only graphs with <= 4 nodes and 1..2 edges over one predicate (self loops included), sha256, 4 variants each", cnt))
 	}
+	h.innerLoopFamilies(seed, *tier == "thorough", *scale)
 	finish()
 }
 
